@@ -7,5 +7,6 @@ CONSTANTS
   WR <- Write
   TD <- ToDec
   NT <- NumText
+  NTL <- NumTextLoc
 INVARIANTS LawBytesRoundTrip LawBytesLayout LawSwap
 CHECK_DEADLOCK FALSE
